@@ -164,6 +164,47 @@ static int do_xw(char *args)
 	return 0;
 }
 
+/* present only in the allocfault build */
+extern void verif_alloc_arm(long k) __attribute__((weak));
+extern long verif_alloc_disarm(void) __attribute__((weak));
+
+/* the copy of an xattr writer runs out of memory at its k-th allocation: the original must go on like a writer that was never copied */
+static int do_xwfail(char *args)
+{
+	unsigned long long seed;
+	int npre, npost;
+	long k, seen = 0;
+	sqfs_xattr_writer_t *orig, *copy, *twin;
+	size_t l1, l2;
+	uint64_t d1, d2;
+
+	if (sscanf(args, "%llu %d %ld %d", &seed, &npre, &k, &npost) != 4)
+		return 0;
+	orig = sqfs_xattr_writer_create(0);
+	twin = sqfs_xattr_writer_create(0);
+	add_sets(orig, seed, 0, npre);
+	add_sets(twin, seed, 0, npre);
+	if (verif_alloc_arm)
+		verif_alloc_arm(k);
+	copy = sqfs_copy(orig);
+	if (verif_alloc_disarm)
+		seen = verif_alloc_disarm();
+	printf("FAILCOPY k=%ld allocations=%ld delivered=%d\n", k, seen < 0 ? -seen : seen, seen < 0);
+	if (copy != NULL)
+		sqfs_drop(copy);
+	add_sets(orig, seed, npre, npost);
+	add_sets(twin, seed, npre, npost);
+	d1 = flush_digest(orig, &l1);
+	d2 = flush_digest(twin, &l2);
+	if (d1 != d2 || l1 != l2) {
+		printf("MISMATCH after a failed copy the xattr writer flushes %zu bytes (%016" PRIx64 "), a writer with the same history %zu bytes (%016" PRIx64 ")\n", l1, d1, l2, d2);
+		return 3;
+	}
+	sqfs_drop(orig);
+	sqfs_drop(twin);
+	return 0;
+}
+
 /* non-default but valid compressor options, selected by sel (0 = defaults) */
 static void vary_cfg(sqfs_compressor_config_t *cfg, int sel)
 {
@@ -309,10 +350,6 @@ static int copy_set(rset_t *dst, const rset_t *src)
 	return 0;
 }
 
-/* present only in the allocfault build */
-extern void verif_alloc_arm(long k) __attribute__((weak));
-extern long verif_alloc_disarm(void) __attribute__((weak));
-
 int main(int argc, char **argv)
 {
 	int o_vs_twin = 0;
@@ -357,6 +394,12 @@ int main(int argc, char **argv)
 		}
 		if (!strcmp(line, "xw")) {
 			int r = do_xw(rest);
+			if (r)
+				return r;
+			continue;
+		}
+		if (!strcmp(line, "xwfail")) {
+			int r = do_xwfail(rest);
 			if (r)
 				return r;
 			continue;
